@@ -37,7 +37,7 @@ fn small_go(rng: &mut Rng, dense: bool) -> Limits {
 // SWEEP_QUICK scripts are swept by the quick tier, all of them by the thorough tier.
 
 pub const SWEEP_SPAN: u64 = 2048;
-pub const SWEEP_QUICK: u64 = 12;
+pub const SWEEP_QUICK: u64 = 13;
 const SWEEP_POSITIONS: [&str; 3] = [
     "position startpos",
     "position fen r1bqkb1r/pppp1ppp/2n2n2/4p2Q/2B1P3/8/PPPP1PPP/RNB1K1NR b KQkq - 4 4",
@@ -45,11 +45,15 @@ const SWEEP_POSITIONS: [&str; 3] = [
 ];
 
 fn catalogue(i: u64) -> Option<Vec<Action>> {
-    let pos = SWEEP_POSITIONS[(i % 3) as usize];
-    let other = SWEEP_POSITIONS[((i + 1) % 3) as usize];
+    // family = i % 13, position = i / 13: the quick tier (13 scripts) sees every family once
+    if i >= 39 {
+        return None;
+    }
+    let pos = SWEEP_POSITIONS[((i / 13) % 3) as usize];
+    let other = SWEEP_POSITIONS[((i / 13 + 1) % 3) as usize];
     let a = |s: &str| Action::send(s);
     let mut v = vec![a(pos)];
-    match i / 3 {
+    match i % 13 {
         0 => v.extend([a("go infinite"), Action::DelaySteps(0), a("stop"), Action::WaitBestmove]),
         1 => v.extend([a("go infinite"), Action::DelaySteps(5), a("stop"), Action::WaitBestmove]),
         2 => v.extend([a("go depth 2"), Action::WaitBestmove, a("go depth 1"), Action::WaitBestmove]),
@@ -65,6 +69,8 @@ fn catalogue(i: u64) -> Option<Vec<Action>> {
         10 => v.extend([a("go infinite"), Action::DelaySteps(20), a("go depth 1"), Action::DelaySteps(5), a("stop"), Action::WaitBestmove, a("go depth 1"), Action::WaitBestmove]),
         // ucinewgame during a search resets the position, not the search bookkeeping
         11 => v.extend([a("go infinite"), Action::DelaySteps(20), a("ucinewgame"), Action::DelaySteps(5), a("stop"), Action::WaitBestmove, a("go nodes 30"), Action::WaitBestmove]),
+        // several gos during one search are all refused, and the stop still reaches the search
+        12 => v.extend([a("go infinite"), Action::DelaySteps(10), a("go depth 1"), a("go nodes 5"), Action::DelaySteps(5), a("go depth 1"), a("stop"), Action::WaitBestmove, a("go depth 1"), Action::WaitBestmove]),
         _ => return None,
     }
     v.push(a("isready"));
@@ -74,7 +80,7 @@ fn catalogue(i: u64) -> Option<Vec<Action>> {
 
 pub fn sweep_scripts(thorough: bool) -> u64 {
     if thorough {
-        36
+        39
     } else {
         SWEEP_QUICK
     }
@@ -157,8 +163,13 @@ pub fn generate(cx: &super::GenCtx) -> Vec<Plan> {
                 s.push(Action::send(if rng.chance(1, 4) { "go" } else { "go infinite" }));
                 s.push(Action::DelaySteps(*rng.pick(DELAYS)));
                 // other commands while the search runs: none of them may cost the stop its effect
-                for _ in 0..*rng.pick(&[0u64, 0, 0, 1, 1, 2]) {
-                    match rng.below(6) {
+                for _ in 0..*rng.pick(&[0u64, 0, 0, 1, 1, 2, 3, 4]) {
+                    match rng.below(8) {
+                        6 | 7 => {
+                            // (weighted up: several refused gos in a row during one search)
+                            let l = small_go(&mut rng, spec.dense);
+                            s.push(Action::send(l.line(Some(&mut rng))));
+                        }
                         0 | 1 => s.push(Action::send("isready")),
                         2 => {
                             // position while the search runs: must affect the NEXT search only
